@@ -446,6 +446,8 @@ func runC40(w *World, r *Report) {
 	if c40NilTests < 100 {
 		r.Violate("R-C40-5", "reachable functions|pointer nil tests examined", "", "only "+sprintInt(c40NilTests)+" nil tests of pointers were found in the reachable set (expected several hundred): the rule is not looking at the code it should")
 	}
+
+	c40MutexReleases(w, r)
 }
 
 var c40ParsedOK = map[string]string{
